@@ -5,9 +5,10 @@ CONSTANTS
   L = 2000
   Step = 500
   MaxTime = 6000
+  Dev_GateUsesOldToken = FALSE
   Dev_ServerRekeyInPlace = FALSE
   Part = "machine"
 INIT Init
 NEXT Next
-INVARIANTS InvRenewOnce InvMacWindow InvUsable
+INVARIANTS InvRenewOnce InvMacWindow InvUsable InvGateUsesNew
 CHECK_DEADLOCK FALSE
